@@ -723,15 +723,20 @@ fn run_varints(ctx: &Ctx) {
 
 // ------------------------------------------------------------------------------------------------ family 2: triplet table
 
-/// magnitudes of one axis of a row that are tested: the ends of its range (plus inner values in thorough),
-/// limited to what a TrueType delta (int16) can be
+/// magnitudes of one axis of a row that are tested: the ends of its range (plus inner values in thorough); for the
+/// 16-bit rows also 32767, 32768 and 40000 (steps wider than an int16 delta, which glyf stores modulo 2^16)
 fn axis_values(bits: u8, d0: u16, neg: bool, thorough: bool) -> Vec<i32> {
     if bits == 0 {
         return vec![0];
     }
     let lo = d0 as i32;
-    let hi = (lo + (1i32 << bits) - 1).min(if neg { 32768 } else { 32767 });
+    // the 16-bit rows reach 65535: the step between two int16 coordinates (e.g. -32768 -> 32767)
+    let hi = lo + (1i32 << bits) - 1;
     let mut v = vec![lo, hi];
+    if bits == 16 {
+        // the edges of what a glyf delta holds without wrapping, and the first values beyond
+        v.extend_from_slice(&[32767, 32768, 40000]);
+    }
     if thorough {
         v.extend_from_slice(&[lo + 1, hi - 1, (lo + hi) / 2]);
     }
@@ -757,23 +762,21 @@ fn run_triplets(ctx: &Ctx) {
         .par_iter()
         .map(|&(dx, dy)| {
             let mut k = 0u64;
-            for ri in enc::admissible_rows(dx, dy) {
+            // a step wider than int16 is written as the true difference or as the wrapped int16 delta of the glyf table
+            let wide = !(-32768..=32767).contains(&dx) || !(-32768..=32767).contains(&dy);
+            let mut variants: Vec<(bool, u8)> = enc::admissible_rows(dx, dy).into_iter().map(|r| (false, r)).collect();
+            if wide {
+                variants.extend(enc::admissible_rows(enc::wrap16(dx), enc::wrap16(dy)).into_iter().map(|r| (true, r)));
+            }
+            for (wrap, ri) in variants {
                 rows_used.lock().unwrap().insert(ri);
                 // position 0: the delta is the first point (relative to the origin); position 1: second point
                 for pos in 0..2 {
                     for on in [true, false] {
-                        let start = |d: i32| -> i32 {
-                            // a start coordinate that keeps start and start + d inside int16
-                            if d < -16384 {
-                                16384
-                            } else if d > 16384 {
-                                -16384
-                            } else {
-                                37
-                            }
-                        };
+                        // a start coordinate that keeps start and start + d inside int16
+                        let start = |d: i32| -> i32 { 37.clamp(-32768 - d.min(0), 32767 - d.max(0)) };
                         let (pts, target) = if pos == 0 {
-                            if !(-32768..=32767).contains(&dx) || !(-32768..=32767).contains(&dy) {
+                            if wide {
                                 continue;
                             }
                             (vec![pt(dx as i16, dy as i16, on), pt((dx / 2) as i16, (dy / 3) as i16, !on)], 0)
@@ -785,7 +788,8 @@ fn run_triplets(ctx: &Ctx) {
                         let m = ttf_model(glyphs, 2, 3, true);
                         let mut ch = EncCh::plain(&m);
                         ch.gc.rows.push((1, target, ri));
-                        run_single(ctx, &m, &ch, false, false, &|| json!({"family": "triplet", "delta": [dx, dy], "row": ri, "position": pos, "on_curve": on}));
+                        ch.gc.wrap_deltas = wrap;
+                        run_single(ctx, &m, &ch, false, false, &|| json!({"family": "triplet", "delta": [dx, dy], "row": ri, "position": pos, "on_curve": on, "written_as_wrapped_int16_delta": wrap}));
                         k += 1;
                     }
                 }
@@ -1346,6 +1350,62 @@ fn run_boundaries(ctx: &Ctx) {
             }
         }
     });
+    // (f) steps wider than int16 between consecutive points, with coordinates at the int16 edges: per axis one of
+    // {no wide step, -32768 -> 32767, 32767 -> -32768, -20000 -> 20000, 20000 -> -20000, -16384 -> 16384, 16384 -> -16384};
+    // the wide step is the second or the third point (the first point sits at the start coordinate, i.e. for the edge
+    // cases the first step from the origin is -32768 or +32767); explicit / computed bbox; on/off curve; true difference vs
+    // wrapped int16 delta; narrowest vs widest admissible row. Expected: the original points (int16 sums modulo 2^16).
+    let axis: [(i32, i32); 7] = [(37, 45), (-32768, 32767), (32767, -32768), (-20000, 20000), (20000, -20000), (-16384, 16384), (16384, -16384)];
+    let mut wide_cases: Vec<(usize, usize)> = Vec::new();
+    for xi in 0..axis.len() {
+        for yi in 0..axis.len() {
+            if xi != 0 || yi != 0 {
+                wide_cases.push((xi, yi));
+            }
+        }
+    }
+    ctx.set("wide_step_axis_combinations", json!(wide_cases.len()));
+    wide_cases.par_iter().for_each(|&(xi, yi)| {
+        let (x0, x1) = axis[xi];
+        let (y0, y1) = axis[yi];
+        for pos in 1..3usize {
+            for onmask in [0b101u32, 0b010] {
+                for explicit in [false, true] {
+                    for wrap in [false, true] {
+                        for default_row in 0..2u8 {
+                            let near = |v: i32| if v > 0 { v - 3 } else { v + 3 };
+                            let mut pts = Vec::new();
+                            if pos == 2 {
+                                pts.push(pt(near(x0) as i16, near(y0) as i16, onmask & 4 != 0));
+                            }
+                            pts.push(pt(x0 as i16, y0 as i16, onmask & 1 != 0));
+                            pts.push(pt(x1 as i16, y1 as i16, onmask & 2 != 0));
+                            pts.push(pt(near(x1) as i16, near(y1) as i16, onmask & 4 != 0));
+                            // a zigzag over all four corners and back through the origin, then a plain glyph behind it
+                            let zig = vec![pt(-32768, -32768, true), pt(32767, 32767, false), pt(-32768, 32767, true), pt(32767, -32768, false), pt(0, 0, true), pt(-32768, 0, true), pt(32767, 1, true)];
+                            let glyphs = vec![
+                                Glyph::Empty,
+                                Glyph::simple(vec![pts], vec![0x10]),
+                                Glyph::simple(vec![zig[..4].to_vec(), zig[4..].to_vec()], vec![]),
+                                Glyph::simple(vec![vec![pt(1, 2, true), pt(30, 40, false), pt(5, -6, true)]], vec![0x20, 0x21]),
+                            ];
+                            let m = ttf_model(glyphs, 2, 3, true);
+                            let mut ch = EncCh::plain(&m);
+                            ch.hmtx_flags = 1;
+                            ch.gc.wrap_deltas = wrap;
+                            ch.gc.default_row = default_row;
+                            ch.gc.explicit_bbox = vec![explicit; 4];
+                            run_single(ctx, &m, &ch, false, false, &|| {
+                                json!({"family": "wide-steps", "x_step": [x0, x1], "y_step": [y0, y1], "wide_step_is_point": pos, "on_curve_mask": onmask, "explicit_bbox": explicit,
+                                       "written_as_wrapped_int16_delta": wrap, "default_row": default_row})
+                            });
+                            ctx.add_states(1);
+                        }
+                    }
+                }
+            }
+        }
+    });
     // (d) CFF flavoured fonts: nothing can be transformed, every table comes back as stored
     for (clen, n) in [(0usize, 1usize), (1, 3), (333, 5), (70000, 9)] {
         for explicit in [false, true] {
@@ -1383,7 +1443,7 @@ pub fn run(ctx: &Ctx) {
          decoded by allsorts through Woff2Font and FontData and compared table by table with the model; families: (1) 255UInt16 all values x all encodings and \
          UIntBase128 byte strings read directly, (2) one font per (delta, admissible triplet row, point position, on-curve bit) for the deltas at the ends of every \
          row's range, (3) five glyph sets x numberOfHMetrics x lsb pattern x hmtx flags (full product) x deviations in the remaining encoder choices, \
-         (4) collections of 1-3 fonts x sharing patterns x per-font choices, and collections of 2-3 members with different table sets (TrueType with cvt/GDEF/arbitrary tag, TrueType without them, OTTO/CFF, TrueType with own outlines; every ordered selection) where every member must be handed exactly its own tag set and tables, (5) boundary fonts (numGlyphs, loca format switch, known tags, CFF, every placement of WE_HAVE_INSTRUCTIONS over 1-3 components). \
+         (4) collections of 1-3 fonts x sharing patterns x per-font choices, and collections of 2-3 members with different table sets (TrueType with cvt/GDEF/arbitrary tag, TrueType without them, OTTO/CFF, TrueType with own outlines; every ordered selection) where every member must be handed exactly its own tag set and tables, (5) boundary fonts (steps wider than int16 between consecutive points with coordinates at the int16 edges, numGlyphs, loca format switch, known tags, CFF, every placement of WE_HAVE_INSTRUCTIONS over 1-3 components). \
          non-trivial = at least one table is stored transformed (fonts) / the encoding is longer than one byte (integers)",
     );
     ctx.assume("brotli stream consists of uncompressed meta-blocks only (no compressor offline); the decompressor crate is trusted");
@@ -1393,7 +1453,7 @@ pub fn run(ctx: &Ctx) {
     ctx.assume("reconstructed glyf is compared glyph by glyph through an independent parser (flag packing / padding may differ); an empty glyph may be a zero-length record or a record with numberOfContours = 0");
     ctx.assume("the OVERLAP_SIMPLE bit carried by overlapSimpleBitmap is not part of the property statement: its loss is counted (note_overlap_simple_bit_*) but not reported");
     ctx.assume("version 1 hmtx next to an untransformed glyf (fontTools decodes it, google/woff2 rejects it): a correct reconstruction or a clean error are both accepted, a panic is not");
-    ctx.assume("deltas are limited to what a TrueType glyf can hold (int16, so -32768 is included, magnitudes above 32767 in the positive direction are not)");
+    ctx.assume("consecutive points may be up to 65535 apart per axis (int16 coordinates); glyf stores such a step modulo 2^16; the WOFF2 encoder writes either the true difference (16-bit triplet rows) or the wrapped int16 delta; either way the expected point is the original int16 coordinate");
     ctx.assume("table_tags is compared as a set; the sfnt flavour is not checked here (C10)");
     run_varints(ctx);
     run_triplets(ctx);
@@ -1407,7 +1467,7 @@ pub fn run(ctx: &Ctx) {
         json!({
             "u255": "all 65536 values x all valid encodings",
             "uintbase128": if thorough { "all terminated strings of 1-4 bytes; 5-6 bytes over the 7-bit menu {00,01,0f,10,3f,40,7f}; 13 named boundary values" } else { "all terminated strings of 1-3 bytes; 4-6 bytes over the 7-bit menu {00,01,0f,10,3f,40,7f}; 13 named boundary values" },
-            "triplets": if thorough { "every row x {min, min+1, mid, max-1, max} per axis x every admissible row x 2 positions x on/off" } else { "every row x {min, max} per axis x every admissible row x 2 positions x on/off" },
+            "triplets": if thorough { "every row x {min, min+1, mid, max-1, max} per axis (16-bit rows also 32767, 32768, 40000; max = 65535) x every admissible row x 2 positions x on/off x {true difference, wrapped int16 delta} for wide steps" } else { "every row x {min, max} per axis (16-bit rows also 32767, 32768, 40000; max = 65535) x every admissible row x 2 positions x on/off x {true difference, wrapped int16 delta} for wide steps" },
             "fonts": {"glyph_sets": SET_NAMES, "deviation_bound": if thorough { 4 } else { 2 }, "free": "set x numberOfHMetrics{1,n/2,n} x lsb pattern{4} x permitted hmtx flags"},
             "collections": {"fonts": "1..=3", "deviation_bound": if thorough { 4 } else { 2 }},
             "numGlyphs": if thorough { "1,2,7-9,31-65,95-97,127-129,255-257,1023-1025,32767,32768,65503-65505,65535" } else { "1,2,7-9,31-33,63-65,255-257,65504,65505,65535" },
